@@ -286,6 +286,19 @@ GROUPS += [
         "stubs": [SOCK_STUB],
         "bounds": "all 2^16 sequences x ports x addresses x ttl, both families",
     },
+    {
+        "id": "C14.core", "property": "C14", "crate": "core", "harnesses": ["c14_core_mpls_member_from", "c14_core_unknown_extension_from"],
+        "jobs": 2, "timeout_s": 300, "mem_gb": 8,
+        "functions": ["MplsLabelStackMember::from(MplsLabelStackMemberPacket)", "UnknownExtension::from(ExtensionObjectPacket)"],
+        "bounds": "arbitrary 4-byte member; arbitrary 8-byte object with length 4..=8",
+    },
+    {
+        "id": "T.c14.try_from", "property": "C14", "crate": "core", "tier": "thorough",
+        "harnesses": ["c14_core_extensions_try_from_wellformed"], "jobs": 1, "timeout_s": 1500, "mem_gb": 16,
+        "functions": ["Extensions::try_from(&[u8])", "Extensions::try_from(ExtensionsPacket)", "MplsLabelStack::from"],
+        "bounds": "fixed shape (version-2 header, one MPLS object with two members, one opaque object with two bytes), all "
+                  "field values symbolic; may end inconclusive (flat_map/collect), then only the leaf conversions are claimed",
+    },
     # ------------------------------------------------------------------ C15 / C16 / C19
     {
         "id": "C15.registry", "property": "C15", "crate": "core", "harnesses": ["c15_"], "jobs": 3, "timeout_s": 1200,
